@@ -69,6 +69,14 @@ func corpus(w *lib.Writer) {
 		set("go.RawSet", I(4), I(4)), set("go.RawSet", I(5), I(5)), {Op: "dumprm", How: "middle", I: 2}}}, "corpus", nil, nil)
 	runCase(w, &Input{Mai: defaultMai, New: "NewTable", Steps: []Step{set("go.RawSet", I(1), I(1)), set("go.RawSet", I(2), I(2)), set("go.RawSet", I(3), I(3)),
 		{Op: "dumprm", How: "last", I: 1}}}, "corpus", nil, nil)
+	// hunt2 C09 obs-3 (fixed): deleting an absent key far above the array part must not grow it
+	far := I(defaultMai - 1)
+	add("corpus", defaultMai, "lua",
+		set("lua.index", far, tv.Nil()), set("lua.rawset", far, tv.Nil()), set("go.RawSetInt", far, tv.Nil()), set("go.RawSet", far, tv.Nil()),
+		set("L.SetTable", far, tv.Nil()), set("L.RawSetInt", I(1000000), tv.Nil()),
+		Step{Op: "insert", How: "lua.insert", I: defaultMai - 2, V: vp(tv.Nil())}, Step{Op: "insert", How: "go.Insert", I: 5000000, V: vp(tv.Nil())},
+		set("lua.index", I(1), I(1)), set("lua.index", I(3), tv.Nil()), set("lua.index", I(2), tv.Nil()), Step{Op: "len", How: "lua.#"},
+		get("lua.index", far))
 	// traversal while clearing every visited field, then while overwriting
 	add("corpus", defaultMai, "NewTable",
 		set("go.RawSet", I(1), I(1)), set("go.RawSet", I(2), I(2)), set("go.RawSet", S("x"), I(3)), set("go.RawSet", tv.Obj(1), I(4)),
